@@ -259,3 +259,70 @@ def some_payload(v):
     if v[0] == "adt" and v[1] == SOME:
         return v[2][0][1]
     return None
+
+
+def bool_rows(facts, rets):
+    """Return paths of a bool-valued function with a returned *condition* split into its two outcomes, so that
+    `if c { return true } false`, `return c` and `.. || c` read as the same table: [(lits, ("bool", b), block)]."""
+    from .pg import norm_lit
+    out = []
+    for r in rets:
+        lits, v = tuple(r[0]), r[1]
+        rest = tuple(r[2:])
+        if v[0] == "bool":
+            out.append((lits, v) + rest)
+            continue
+        for b in (True, False):
+            l = norm_lit(facts, v, b)
+            if l == ("const", False):
+                continue
+            out.append(((lits if l[0] == "const" else lits + (l,)), ("bool", b)) + rest)
+    return out
+
+
+def alternatives(e):
+    """The values an expression can take when it is a choice: a phi of a `match`/`if`, or `o.unwrap_or(d)`
+    (the payload of o, else d). A plain expression is its own single alternative."""
+    if e[0] == "phi":
+        return tuple(e[3])
+    if e[0] == "call" and e[1].endswith("Option::unwrap_or") and len(e[2]) == 2:
+        return (("vfield", e[2][0], SOME, 0), e[2][1])
+    return (e,)
+
+
+def table_is_condition(facts, rets, cond):
+    """The bool-valued function whose return paths are `rets` computes exactly `cond`: it returns it, or branches
+    on it and answers true on the branch where it holds and false where it does not (nothing else decides)."""
+    from .pg import norm_lit
+    pos, neg = norm_lit(facts, cond, True), norm_lit(facts, cond, False)
+    rows = bool_rows(facts, rets)
+    if not rows:
+        return False
+    seen = set()
+    for r in rows:
+        lits, v = r[0], r[1]
+        if v[0] != "bool":
+            return False
+        want = pos if v[1] else neg
+        if want not in lits or (neg if v[1] else pos) in lits:
+            return False
+        seen.add(v[1])
+    return seen == {True, False}
+
+
+def callable_returns(prog, x):
+    """Return paths [(lits, value)] of a predicate passed as a value: a closure literal or a plain function item;
+    the element it is applied to is parameter 2 of a closure (after the environment) and parameter 1 of a function."""
+    if x[0] == "closure":
+        r = closure_returns(prog, x[1])
+        return [(t[0], t[1]) for t in r] if r else None
+    if x[0] == "fnref":
+        ks = prog.short.get(x[1]) or []
+        if len(ks) != 1:
+            return None
+        from .pg import PG
+        try:
+            return [(t[0], t[1]) for t in PG(prog, prog.facts.fns[ks[0]]).returns()]
+        except OverflowError:
+            return None
+    return None
